@@ -310,6 +310,12 @@ func c19Gen(r *Run, rng *gen.Rng, corpus []string) *c19Inv {
 		simrt.FileSpec{Path: "/bin/sh", Data: []byte("ELF dash")}, simrt.FileSpec{Path: "/usr/bin/env", Data: []byte("ELF env")})
 	files = append(files, simrt.FileSpec{Path: "/tmp", Dir: true})
 	cwd := rng.Pick([]string{mount, "/sim", "/", path.Dir(path.Join(mount, main)), outAbs, path.Dir(outAbs)})
+	if rng.Chance(6) {
+		// the working directory was entered through a symbolic link next to the tree that leads
+		// somewhere deeper: the logical path (what Getwd reports) and the physical one disagree on ".."
+		cwd = path.Join(path.Dir(mount), ".cwlink")
+		files = append(files, simrt.FileSpec{Path: "/srv/deep/a/b/c/d", Dir: true}, simrt.FileSpec{Path: cwd, Link: "/srv/deep/a/b/c/d"})
+	}
 	rel := func(abs string) string {
 		if rng.Chance(50) {
 			return abs
